@@ -175,6 +175,13 @@ def run(ctx, scratch):
             for rep in range(reps):
                 square = rep % 3 == 2
                 spec, nr, nc, fam = cases.make_matrix(rng, 'bip', nmax, weighted=rng.random() < 0.5)
+                if rep == 1 and not square and nc >= 2 and nr >= 2:
+                    # once per entry point, independent of the stream: the LAST column (and the last row) of B is empty - the block
+                    # adjacency still has n_row + n_col nodes (seed C03_13 inferred its size from the largest index carrying an edge)
+                    kept = [e for e in spec['coo'] if e[1] < nc - 1 and e[0] < nr - 1]
+                    if kept:
+                        spec = dict(spec, coo=kept)
+                        fam = (fam or '') + '_empty_last'
                 if name == 'Spectral' and rep % 4 == 1 and not (rep % 3 == 2):
                     # a thin biadjacency (1 or 2 rows or columns): the block graph still has n_row + n_col nodes, and as many
                     # components as it would be given for as the adjacency of that graph
